@@ -473,6 +473,11 @@ class MessageQueue(Entity):
             message_id = event.context.get("message_id")
             if message_id:
                 self._redelivery_scheduled.discard(message_id)
+                # schedule_redelivery() left the message pollable at the head
+                # of the pending queue. If a poll already picked it up (or it
+                # was acknowledged/dead-lettered meanwhile) this timer is stale.
+                if message_id not in self._pending_queue:
+                    return []
                 delivery_event = yield from self._deliver_message(message_id)
                 if delivery_event:
                     return [delivery_event]
